@@ -149,9 +149,17 @@ def run(ctx):
             v[idx] = min(2**width - 2, rng.choice([999, 1000, 1023, 1024, 1536, 10**6, 2**20, 123456789, 5 * 2**30 + 7, 10**12 + 1]))
         treqs.append("table 0 none %s -" % ",".join(map(str, v)))
         tmeta.append(v)
+    # ... and tables in which EVERY row holds the same number (a count of 1500 next to 1500 bytes, both of the same Go type):
+    # what one row shows may not depend on what another row of the same table showed for the same number
+    for same in [1000, 1023, 1024, 1500, 1536, 2000, 999999, 10**6, 2**20, 123456789, 2**31, 4 * 10**9] + [rng.randrange(1000, 2**32 - 1) for _ in range(4 if ctx["tier"] == "quick" else 100)]:
+        v = [0] * 22
+        for idx, sym, width, ref in _c11.ITEMS:
+            v[idx] = min(2**width - 2, same)
+        treqs.append("table 0 none %s -" % ",".join(map(str, v)))
+        tmeta.append(v)
     tout = vlib.batch(ctx["bins"]["api"], treqs)
     freqs = [("fmt %s %d" % ("binary" if sym in BYTES else "metric", v[idx])) for v in tmeta for idx, sym, width, ref in _c11.ITEMS]
-    fout = vlib.batch(ctx["bins"]["api"], freqs)
+    fout = vlib.batch(ctx["modelrun"], freqs)          # the model of human.go is the judge of each cell, one value at a time
     k = 0
     for v, o, req in zip(tmeta, tout, treqs):
         parts = dict(p.split(":", 1) for p in o.split() if ":" in p)
